@@ -283,3 +283,29 @@ if m=='M22':  # a lazily filled table behind a sync.Once captured by a filter cl
 		}''')
     sub('filters.go','''import (''','''import (
 	"sync"''')
+if m=='M23':  # the comment rules run on a goroutine of their own while the syntax rules walk the file (per-run state on two goroutines)
+    sub('runner.go','''	if rr.rules.universal.categorizedNum != 0 {
+		var inspector astWalker''','''	done := make(chan struct{})
+	go func() {
+		defer close(done)
+		if len(rr.rules.universal.commentRules) != 0 {
+			for _, commentGroup := range f.Comments {
+				for _, comment := range commentGroup.List {
+					rr.runCommentRules(comment)
+				}
+			}
+		}
+	}()
+	defer func() { <-done }()
+
+	if rr.rules.universal.categorizedNum != 0 {
+		var inspector astWalker''')
+    sub('runner.go','''	if len(rr.rules.universal.commentRules) != 0 {
+		for _, commentGroup := range f.Comments {
+			for _, comment := range commentGroup.List {
+				rr.runCommentRules(comment)
+			}
+		}
+	}
+
+	return nil''','''	return nil''')
